@@ -123,15 +123,15 @@ PROPS = {
             "modelled by hand: encoding::{base64url, base64, try_from_base64url, try_from_base64} and Bytes::try_from(&str) (Base/Base64.lean), Bytes::deserialize on JSON values, StringOrNum / maybe_stringified / i64_to_iana (Model/WebauthnJson.lean; decimal texts with more than 15 significant digits are outside the model)",
             "translator translate/webauthn.py: struct members (JSON name via rename_all/rename, aliases, type, default, deserialize_with/with helper) and enum variants (rename_all/rename/alias, #[default]) of the 12 structs and 8 enums reachable from CredentialRequestOptions / CredentialCreationOptions; fails closed on any attribute, type or shape it does not know (e.g. serde(other), deny_unknown_fields, flatten); cross-checked by the js.opts stream (the interpreted schema against the real derived parsers on every document)",
             "modelled by hand: what #[derive(Deserialize)] generates for such a schema read by serde_json (member lookup, skipping unknown members, duplicate detection, defaults and implicit None, Option/Vec/HashMap/enum/struct shapes) and the helpers ignore_unknown (streaming and buffered), ignore_unknown_opt_vec / ignore_unknown_vec over PossiblyUnknown (Model/SerdeStruct.lean); outside the model (verdict na, implementation output echoed): the positional (array) form of a struct, a struct that fails to parse under a streaming ignore_unknown, numbers beyond 15 significant digits",
-            "NOT modelled: Serialize of the credential structs and CollectedClientData's flatten: emitted credentials are re-parsed by the real code and compared (stream only)",
+            "modelled by hand: what #[derive(Serialize)] writes for such a schema (declaration order, skip_serializing_if = Option::is_none, Bytes as an array of numbers or - under the crate feature serialize_bytes_as_base64_string - base64url text, enumerations as variant names, integers as decimal tokens) and serde_json's compact text (Model/SerdeSer.lean); compared with the real serialiser on every emitted and every directly built credential (js.ser). NOT modelled: CollectedClientData's flatten (member order is checked on the real code by the stream)",
             "JSON reader Base/Json.lean (with an RFC 8259 number check in the driver) stands for serde_json's tokeniser; coset 0.3.8's table of known COSE algorithms is a parameter of the theorems and a table in the driver",
             "translator translate/decoders.py: PossiblyUnknown is the buffered (untagged) form",
         ],
         "assumptions": ["an entry whose `type` is an unknown string is kept with the Unknown variant (the string is ignored, not the entry): such entries are the same in every presentation of a value",
                         "serde_json reads an object member by member in text order and a derived visitor behaves as Model/SerdeStruct.lean says (checked on every document of the stream)"],
-        "level_text": "Kernel-checked for every byte string: base64url encoding followed by Bytes::try_from is the identity, the text is unpadded and url-safe, and standard base64 text with any amount of padding decodes to the same bytes; under the model of the Bytes visitor a binary member parses to the same bytes as base64url text, as base64 text (padded or not) and as an array of number tokens; under the model of StringOrNum a number token, a numeric string and an integral float denoting the same in-range value all parse to it; re-serialised client data lists type, challenge, origin, crossOrigin first and then the other members in input order. Kernel-checked for every schema, every JSON object and every position under the model of the derived struct parsers: a member that is no field is ignored whatever its value; an unknown enumeration string read through ignore_unknown gives the default, not an error; list entries that do not parse are dropped and the others kept in order; the parsed struct depends on a binary / numeric member only through the bytes / number it denotes (instantiated end to end for the challenge of the regenerated request options). Kernel-checked over the schema regenerated from the source on every run: the required members are exactly the WebAuthn-required ones (every other member may be absent), every enumeration member and every list of enumerations / descriptors / parameters is read through the lenient helper, defaults name variants, member names are distinct. PARTIAL only in that the re-parse of emitted credentials (Serialize side) is checked by the stream alone. Stream: 700 leaf texts against the leaf models; 900 (thorough 7000) option documents (mostly valid and malformed: members absent / null / wrong type / duplicated / aliased, unknown members and values anywhere) with the interpreted schema against the real parsers; 40 (300) option values x 10 presentations requiring one parsed value; emitted credentials re-parsed; base64url round trips; client-data documents.",
+        "level_text": "Kernel-checked for every byte string: base64url encoding followed by Bytes::try_from is the identity, the text is unpadded and url-safe, and standard base64 text with any amount of padding decodes to the same bytes; under the model of the Bytes visitor a binary member parses to the same bytes as base64url text, as base64 text (padded or not) and as an array of number tokens; under the model of StringOrNum a number token, a numeric string and an integral float denoting the same in-range value all parse to it; re-serialised client data lists type, challenge, origin, crossOrigin first and then the other members in input order. Kernel-checked for every schema, every JSON object and every position under the model of the derived struct parsers: a member that is no field is ignored whatever its value; an unknown enumeration string read through ignore_unknown gives the default, not an error; list entries that do not parse are dropped and the others kept in order; the parsed struct depends on a binary / numeric member only through the bytes / number it denotes (instantiated end to end for the challenge of the regenerated request options). Kernel-checked over the schema regenerated from the source on every run: the required members are exactly the WebAuthn-required ones (every other member may be absent), every enumeration member and every list of enumerations / descriptors / parameters is read through the lenient helper, defaults name variants, member names are distinct. Kernel-checked for the emitted credentials (PublicKeyCredential<R> for both response types, regenerated): the eight structs meet the round-trip conditions (helpers on the types they are written for, skipped members optional with a default, names distinct), and for every value of either credential type, in either form of binary members, whatever the serialiser model writes the parser model reads back as that value (mutual induction over values; decimal printing and reading of integers and the base64 round trip are proved, not assumed). Client-data member order of the real code is checked by the stream. Stream: 700 leaf texts against the leaf models; 900 (thorough 7000) option documents (mostly valid and malformed: members absent / null / wrong type / duplicated / aliased, unknown members and values anywhere) with the interpreted schema against the real parsers; 40 (300) option values x 10 presentations requiring one parsed value; emitted credentials re-parsed; base64url round trips; client-data documents.",
         "level_note": "Trusted: Lean kernel; axioms propext/Classical.choice/Quot.sound; translator webauthn.py (fails closed; cross-checked by the stream); hand models (compared on every input); JSON reader. Fixed defect (ecc6514): an unknown list entry was dropped only when its offending member came last in the object.",
-        "rule": "leaf texts: 80 (thorough 600) byte strings x 6 presentations, 20 malformed binary texts, 61 curated number texts + 80 (600) random ones, each as timeout and as algorithm identifier; 500 (4000) generated option documents over 7 root types, two thirds mostly valid (4% bad members), one third malformed (30%), plus each presentation of the metamorphic groups; 40 (300) option values x 10 presentations; 15 (100) register+authenticate pairs re-parsed; 300 (2000) base64url round trips; 80 (600) client-data documents.",
+        "rule": "leaf texts: 80 (thorough 600) byte strings x 6 presentations, 20 malformed binary texts, 61 curated number texts + 80 (600) random ones, each as timeout and as algorithm identifier; 500 (4000) generated option documents over 7 root types, two thirds mostly valid (4% bad members), one third malformed (30%), plus each presentation of the metamorphic groups; 40 (300) option values x 10 presentations; 15 (100) register+authenticate pairs re-parsed and their text compared with the serialiser model, 80 (600) credential values built directly (every optional member present / absent, ids needing escapes, extreme algorithm numbers); 300 (2000) base64url round trips; 80 (600) client-data documents.",
     },
     "C15": {
         "modules": ["PasskeyVerif.Props.C15"],
